@@ -78,6 +78,7 @@ SIG_NOKEY = "haplotagphase:prephased-no-ps-key-gains-ps0"           # het a|b wi
 SIG_STALE = "history:unselected-sample-phased-from-stale-tags"      # haplotag --sample left old HP/PS tags on other samples
 SIG_MISSING = "haplotagphase:missing-genotype-crash"                # a ./. or 0/. call covered by reads: IndexError in realign
 SIG_COLLIDE = "haplotag:read-name-shared-by-two-samples-mistagged"  # read_to_haplotype is keyed by the read name only
+SIG_NOREF_SYM = "haplotag:no-reference-reads-symbolic-alt-as-ref"    # CIGAR-based detection takes "<DEL>" for an inserted string
 SIG_PSDOT = "haplotagphase:prephased-ps-missing-rewritten"          # het a|b:. rewritten from the votes
 
 
@@ -1343,7 +1344,13 @@ def report(ctx, meta, failing):
                 ctx.tally(spec["stream"] + "." + lab + ".not_applicable")
                 continue
             sig_, txt_ = sig, txt
-            if spec.get("collide"):
+            sym_phased = any(rec[5] and any(c_[1] for c_ in rec[3]) for rec in ch["orig"])
+            if "--no-reference" in ((spec.get("io") or {}).get("haplotag") or []) and sym_phased:
+                sig_ = SIG_NOREF_SYM
+                txt_ = ("haplotag --no-reference with a phased symbolic-ALT record in the VCF: the CIGAR-based allele "
+                        "detection reads every alignment as REF at that record (also those that carry the deletion) and tags "
+                        "the reads from it; " + txt)
+            elif spec.get("collide"):
                 sig_ = SIG_COLLIDE
                 txt_ = ("with read names shared by two samples of the BAM, haplotag tags a read with the decision made for "
                         "the other sample's read of that name; " + txt)
